@@ -22,10 +22,12 @@ from typing import Any, List
 _H = None
 _W = None
 _PRISTINE = None
+_KEEP_GRAPH = False
 
 
-def _init(harness_cls, hargs):
-    global _H, _W, _PRISTINE
+def _init(harness_cls, hargs, keep_graph=False):
+    global _H, _W, _PRISTINE, _KEEP_GRAPH
+    _KEEP_GRAPH = keep_graph
     from vf import boot
 
     boot.install()
@@ -42,6 +44,7 @@ def _expand(chunk):
         snap = pickle.loads(snap_b)
         _W.restore(snap)
         labels = _H.enabled(_W)
+        c0 = _H.canon(_W) if _KEEP_GRAPH else None
         for label in labels:
             _W.restore(snap)
             pre = _H.pre_view(_W)
@@ -59,7 +62,7 @@ def _expand(chunk):
             viol.extend(_H.check_transition(_W, pre, label, obs))
             viol.extend(_H.check_state(_W))
             c = _H.canon(_W)
-            out.append((c, pickle.dumps(_W.snapshot(), protocol=4), hist + [label], viol, obs if viol else None))
+            out.append((c, pickle.dumps(_W.snapshot(), protocol=4), hist + [label], viol, obs if viol else None, c0))
     return out, ntrans, dict(getattr(_W.mdb, 'coverage', {}))
 
 
@@ -69,7 +72,7 @@ def _initial(_):
         _W.restore(_PRISTINE)
         setup(_W)
         viol = list(_H.check_state(_W))
-        res.append((_H.canon(_W), pickle.dumps(_W.snapshot(), protocol=4), list(hist), viol, None))
+        res.append((_H.canon(_W), pickle.dumps(_W.snapshot(), protocol=4), list(hist), viol, None, None))
     return res
 
 
@@ -92,15 +95,17 @@ def bfs(harness_cls, hargs=(), *, depth, procs=16, max_states=None, time_budget=
     res = Result()
     ctx = mp.get_context('fork')
     seen = {}
+    hist_of = {}
     graph = [] if keep_graph else None
-    with ctx.Pool(procs, initializer=_init, initargs=(harness_cls, hargs)) as pool:
+    with ctx.Pool(procs, initializer=_init, initargs=(harness_cls, hargs, keep_graph)) as pool:
         init = pool.map(_initial, [0])[0]
         frontier = []
-        for c, snap, hist, viol, _ in init:
+        for c, snap, hist, viol, _, _c0 in init:
             for sig, msg in viol:
                 res.violations.append({'signature': sig, 'message': msg, 'replay': {'history': hist}})
             if c not in seen:
                 seen[c] = len(seen)
+                hist_of[seen[c]] = hist
                 frontier.append((snap, hist))
         res.level_sizes.append(len(frontier))
         d = 0
@@ -115,16 +120,17 @@ def bfs(harness_cls, hargs=(), *, depth, procs=16, max_states=None, time_budget=
                 res.transitions += ntrans
                 for k, v in cov.items():
                     res.coverage[k] = max(res.coverage.get(k, 0), v)
-                for c, snap, hist, viol, obs in out:
+                for c, snap, hist, viol, obs, c0 in out:
                     for sig, msg in viol:
                         res.violations.append({'signature': sig, 'message': msg, 'replay': {'history': hist, 'obs': obs}})
-                    if graph is not None:
-                        graph.append((hist[:-1], hist[-1], c))
                     if c not in seen:
                         seen[c] = len(seen)
+                        hist_of[seen[c]] = hist
                         nxt.append((snap, hist))
                         if len(res.samples) < 3 and len(hist) >= min(depth, 4):
                             res.samples.append(hist)
+                    if graph is not None:
+                        graph.append((seen[c0], hist[-1], seen[c]))
             d += 1
             # deterministic order regardless of worker scheduling
             nxt.sort(key=lambda x: repr(x[1]))
@@ -140,6 +146,8 @@ def bfs(harness_cls, hargs=(), *, depth, procs=16, max_states=None, time_budget=
     res.violations.sort(key=lambda v: (len(v['replay']['history']), repr(v['replay']['history'])))
     res.wall = time.time() - t0
     res.graph = graph
+    res.hist_of = hist_of
+    res.canon_ids = seen if keep_graph else None
     return res
 
 
